@@ -4,8 +4,8 @@ from . import common as C
 from . import par
 
 TIERS = {
-    "quick":    {"cfgs": ["MC_Tree_2s1p.cfg"], "hist": (1500, 30)},
-    "thorough": {"cfgs": ["MC_Tree_2s1p.cfg", "MC_Tree_3s1p.cfg"], "hist": (5000, 40)},
+    "quick":    {"cfgs": ["MC_Tree_2s1p.cfg", "MC_Tree_1s2p.cfg", "MC_Tree_3s0p.cfg", "MC_Tree_1s3p.cfg"], "hist": (1500, 30)},
+    "thorough": {"cfgs": ["MC_Tree_2s1p.cfg", "MC_Tree_1s2p.cfg", "MC_Tree_3s0p.cfg", "MC_Tree_1s3p.cfg", "MC_Tree_3s1p.cfg"], "hist": (5000, 40)},
 }
 UNIVERSE = {"d1": "doc", "d2": "doc", "s1": "sec", "s2": "sec", "s3": "sec", "s4": "sec", "p1": "prop", "p2": "prop"}
 
@@ -71,7 +71,7 @@ def replay_record(rec, d):
     w = C.ObsWriter(os.path.join(d, "one"))
     if "kind" in rec and "in" in rec:
         recs = list(ids.replay({"pre": {rec["kind"]: "f" if rec["pre"].startswith("f") else rec["pre"]},
-                                "op": rec["op"], "kind": rec["kind"], "in": rec["in"]}))
+                                "op": rec["op"], "kind": rec["kind"], "in": rec["in"], "named": rec.get("named", True)}))
         judge = ("JudgeIds.tla", "JudgeIds.cfg")
     elif rec.get("src") == "model" and "hist" not in rec:
         recs = list(tree.replay({"pre": world.core(rec["pre"]), "op": rec["op"]}))
